@@ -338,4 +338,56 @@ if "h_alloc cell" in _a and "h_get" in _a and "h_alloc cell" not in _b and "h_ap
 else:
     print("NOT DISTINCT heap copy / alias:\n" + _a + "\n" + _b)
     bad += 1
+# ---- idiom format-bin-zfill: exactly `format(e, f"0{n}b")` and `format(e, "b").zfill(n)`; everything else about format() / zfill stays rejected
+_FKN = dict(params=[("k", "k", Z), ("n", "n", Z)], returns=tr.STR)
+_FVIEW = dict(format_int_view={repr(Opt(Z)): 'match {0} with Some z_ => Ok z_ | None => Err "TypeError"%string end'})
+FORMATCASES = {
+    "format-fspec": ('def f(k, n):\n    return format(k, f"0{n}b")\n', {}, _FKN, True),
+    "format-fspec-expressions": ('def f(k, n):\n    return format(k + 1, f"0{n * 2}b")\n', {}, _FKN, True),
+    "format-zfill": ('def f(k, n):\n    return format(k, "b").zfill(n)\n', {}, _FKN, True),
+    "format-int-view": ('def f(k, n):\n    return format(k, f"0{n}b")\n', _FVIEW, dict(params=[("k", "k", Opt(Z)), ("n", "n", Z)], returns=tr.STR), True),
+    "format-operand-without-view": ('def f(k, n):\n    return format(k, f"0{n}b")\n', {}, dict(params=[("k", "k", Opt(Z)), ("n", "n", Z)], returns=tr.STR), False),
+    "format-bool-operand": ('def f(k, n):\n    return format(k, f"0{n}b")\n', {}, dict(params=[("k", "k", BOOL), ("n", "n", Z)], returns=tr.STR), False),
+    "format-str-width": ('def f(k, n):\n    return format(k, f"0{n}b")\n', {}, dict(params=[("k", "k", Z), ("n", "n", tr.STR)], returns=tr.STR), False),
+    "format-b-alone": ('def f(k, n):\n    return format(k, "b")\n', {}, _FKN, False),
+    "format-one-argument": ("def f(k, n):\n    return format(k)\n", {}, _FKN, False),
+    "format-constant-spec": ('def f(k, n):\n    return format(k, "05b")\n', {}, _FKN, False),
+    "format-decimal-spec": ('def f(k, n):\n    return format(k, f"0{n}d")\n', {}, _FKN, False),
+    "format-hex-spec": ('def f(k, n):\n    return format(k, f"0{n}x")\n', {}, _FKN, False),
+    "format-space-fill": ('def f(k, n):\n    return format(k, f" {n}b")\n', {}, _FKN, False),
+    "format-no-zero-flag": ('def f(k, n):\n    return format(k, f"{n}b")\n', {}, _FKN, False),
+    "format-alternate-form": ('def f(k, n):\n    return format(k, f"#0{n}b")\n', {}, _FKN, False),
+    "format-two-fields": ('def f(k, n):\n    return format(k, f"0{n}{n}b")\n', {}, _FKN, False),
+    "format-width-with-conversion": ('def f(k, n):\n    return format(k, f"0{n!r}b")\n', {}, _FKN, False),
+    "format-width-with-own-spec": ('def f(k, n):\n    return format(k, f"0{n:d}b")\n', {}, _FKN, False),
+    "format-spec-in-variable": ('def f(k, n):\n    s = "05b"\n    return format(k, s)\n', {}, _FKN, False),
+    "format-keyword": ('def f(k, n):\n    return format(k, format_spec=f"0{n}b")\n', {}, _FKN, False),
+    "str-format-method": ('def f(k, n):\n    return "{:05b}".format(k)\n', {}, _FKN, False),
+    "fstring-binary-piece": ('def f(k, n):\n    return f"{k:0{n}b}"\n', {}, _FKN, False),
+    "zfill-of-a-string": ('def f(s, n):\n    return s.zfill(n)\n', {}, dict(params=[("s", "s", tr.STR), ("n", "n", Z)], returns=tr.STR), False),
+    "zfill-of-format-decimal": ('def f(k, n):\n    return format(k, "d").zfill(n)\n', {}, _FKN, False),
+    "zfill-two-arguments": ('def f(k, n):\n    return format(k, "b").zfill(n, n)\n', {}, _FKN, False),
+    "zfill-of-bin": ("def f(k, n):\n    return bin(k)[2:].zfill(n)\n", {}, _FKN, False),
+    "rjust-of-format": ('def f(k, n):\n    return format(k, "b").rjust(n, "0")\n', {}, _FKN, False),
+    "format-shadowed-by-local": ('def f(k, n):\n    format = k\n    return format(k, f"0{n}b")\n', {}, _FKN, False),
+}
+_fmt_texts = {}
+for name, (src, extras, entry, ok) in FORMATCASES.items():
+    d = WORK / ("fmt_" + name)
+    d.mkdir(parents=True, exist_ok=True)
+    (d / "m.py").write_text(src)
+    try:
+        g = tr.translate_spec(dict(id="T", source="m.py", module="TGen", link="-", functions=[dict(py="f", gen="f", kind="function", **entry)], **extras), d)
+        _fmt_texts[name] = g.text
+        print(f"accepted  {name}" if ok else f"NOT REJECTED {name}:\n{g.text}")
+        bad += 0 if ok else 1
+    except tr.Untranslatable as e:
+        print(f"rejected  {name:28s} {e.reason[:90]}" if not ok else f"NOT ACCEPTED {name}: {e}")
+        bad += 1 if ok else 0
+# the two accepted forms are DIFFERENT definitions (they differ for n < 0): the f-string form is partial, the zfill form total
+if "py_format_bin_fspec k n" in _fmt_texts.get("format-fspec", "") and "(py_format_bin_zfill k n)" in _fmt_texts.get("format-zfill", "") and "result" not in _fmt_texts.get("format-zfill", "").split("Definition gen_f")[-1]:
+    print("distinct  format-fspec (py_format_bin_fspec, result string) / format-zfill (py_format_bin_zfill, string)")
+else:
+    print("NOT DISTINCT format forms:\n" + _fmt_texts.get("format-fspec", "") + "\n" + _fmt_texts.get("format-zfill", ""))
+    bad += 1
 sys.exit(1 if bad else 0)
